@@ -28,27 +28,28 @@ func (m *consumptions) SendToAll(p Pack, keyframe bool) {
 
 func (m *consumptions) RemoveAndCloseAll() {
 	m.Range(func(key, value interface{}) bool {
-		c := value.(*consumption)
-		m.Delete(key)
-		vhook.At("sweep.one", c)
-		c.Close()
+		// 只有真正删除了条目的一方才减计数，避免和并发的 Remove 重复扣减
+		if _, ok := m.LoadAndDelete(key); ok {
+			atomic.AddInt32(&m.count, -1)
+			c := value.(*consumption)
+			vhook.At("sweep.one", c)
+			c.Close()
+		}
 		return true
 	})
 
 	vhook.At("sweep.zero", m)
-	atomic.StoreInt32(&m.count, 0)
 }
 
 func (m *consumptions) Add(c *consumption) {
+	atomic.AddInt32(&m.count, 1) // 先计数后存储，计数任何时刻都不小于条目数
 	m.Store(c.cid, c)
-	atomic.AddInt32(&m.count, 1)
 }
 
 func (m *consumptions) Remove(cid CID) *consumption {
-	ci, ok := m.Load(cid)
+	ci, ok := m.LoadAndDelete(cid)
 	if ok {
 		vhook.At("remove.loaded", ci)
-		m.Delete(cid)
 		atomic.AddInt32(&m.count, -1)
 		return ci.(*consumption)
 	}
